@@ -14,7 +14,7 @@ for d in sorted(glob.glob('seeded/*/')):
     own = m['property'] in props
     verdict = ('caught' if own else ('caught by sibling property only' if props else '**missed**'))
     rows.append(f"| {m['id']} | {summ}… | {'yes' if ok else 'NO'} / {st.replace('stable tests: ', '')} | {verdict} | {', '.join(rules) or '—'} | {', '.join(props) or '—'} |")
-n = len(rows); caught = sum('caught' in r and 'missed' not in r for r in rows)
+n = len(rows); caught = sum('| caught |' in r for r in rows)
 txt = f"""## 8. Seeded regressions and which checks catch them
 
 Each change below was written by an independent sub-agent that was given only the text of one
